@@ -22,12 +22,14 @@ from . import core
 METHOD_EVENTS = ['method_context_created', 'method_call', 'method_return_object', 'method_exception_object',
                  'method_return_document', 'method_exception_document', 'method_return_string',
                  'method_exception_string', 'method_context_closed']
-PROT_EVENTS = ['before_deserialize', 'after_deserialize', 'before_serialize', 'after_serialize']
+PROT_EVENTS = ['before_deserialize', 'after_deserialize', 'before_serialize', 'after_serialize', 'serialize']
 WSGI_EVENTS = ['wsgi_call', 'wsgi_return', 'wsgi_exception', 'wsgi_close']
 # names the modelled pipeline must never fire on a plain request (listened to on every manager all the same)
 OTHER_EVENTS = ['method_accept_document', 'method_return_push', 'method_redirect', 'method_redirect_exception',
                 'wsdl', 'wsdl_exception']
 ALL_EVENTS = METHOD_EVENTS + PROT_EVENTS + WSGI_EVENTS + OTHER_EVENTS
+LEAN_PROT_EV = {'before_deserialize': 'beforeDeserialize', 'after_deserialize': 'afterDeserialize',
+                'before_serialize': 'beforeSerialize', 'after_serialize': 'afterSerialize', 'serialize': 'serialize'}
 LEAN_EV = {'method_context_created': 'created', 'method_call': 'call', 'method_return_object': 'returnObject',
            'method_exception_object': 'exceptionObject', 'method_return_document': 'returnDocument',
            'method_exception_document': 'exceptionDocument', 'method_return_string': 'returnString',
@@ -35,7 +37,8 @@ LEAN_EV = {'method_context_created': 'created', 'method_call': 'call', 'method_r
 PROBE = 0          # listener id of the observer: registered first on the application's manager, never raises
 
 IN_PROTOS = ['xml', 'soap11', 'soap12', 'json', 'yaml', 'msgpack', 'msgpackrpc', 'http']
-OUT_PROTOS = ['xml', 'soap11', 'soap12', 'json', 'yaml', 'msgpack', 'msgpackrpc']
+OUT_PROTOS = ['xml', 'soap11', 'soap12', 'json', 'yaml', 'msgpack', 'msgpackrpc', 'http']
+SHAPES = ['void', 'none', 'value', 'generator']
 XML_FAMILY = ('xml', 'soap11', 'soap12')
 PRE_STAGES = ['createInDoc', 'decompose', 'genContexts', 'deserialize']
 STAGE_METHOD = {'createInDoc': 'create_in_document', 'decompose': 'decompose_incoming_envelope',
@@ -139,8 +142,10 @@ def fire_outcome(world, ev):
 class Env:
     """one Application with recording listeners on every manager, built from a world spec"""
 
-    def __init__(self, inp, outp, world, user='ok', stage_inj=None, msgpack_keys='bytes', validator='soft'):
-        from spyne import Application, rpc, Service, Integer, Unicode, Fault, EventManager
+    def __init__(self, inp, outp, world, user='ok', stage_inj=None, msgpack_keys='bytes', validator='soft', shape='value',
+                 no_out_string=False):
+        from spyne import Application, rpc, Service, Integer, Unicode, Fault, EventManager, Iterable
+        self.out_none = []        # after each create_out_string: is ctx.out_string None (fault path?, none?)
         self.Fault = Fault
         self.trace = []
         self.stages = []          # (stage, 'fault'|'exc', inner) for every protocol stage that raised
@@ -195,8 +200,12 @@ class Env:
             env.user_returns += 1
             if user == 'unser':
                 return '\x00'            # lxml refuses NUL in text
+            if shape in ('void', 'none'):
+                return None
+            if shape == 'generator':
+                return (x for x in ['r%s' % (a,), 's'])
             return 'r%s' % (a,)
-        kw = {'_returns': Unicode}
+        kw = {} if shape == 'void' else {'_returns': Iterable(Unicode)} if shape == 'generator' else {'_returns': Unicode}
         if meth_mgrs:
             kw['_evmgrs'] = meth_mgrs
         self.svc_cls = make_class(world['svc'], 'Svc', {'op': rpc(Integer(ge=0), **kw)(op)})
@@ -211,6 +220,13 @@ class Env:
         for stage, name in STAGE_METHOD.items():
             self._wrap(self.inp, name, stage, stage_inj)
         self._wrap(self.outp, 'serialize', 'serialize', stage_inj)
+        real_cos = self.outp.create_out_string
+
+        def create_out_string(ctx, *a, **kw):
+            if not no_out_string:
+                real_cos(ctx, *a, **kw)
+            env.out_none.append((ctx.out_error is not None, ctx.out_string is None))
+        self.outp.create_out_string = create_out_string
         # Application.call_wrapper (dispatch to the user function), on the instance
         real_cw = self.app.call_wrapper
 
@@ -417,13 +433,14 @@ def run_case(case, msgpack_keys):
     """drive the real code for one case; returns the observation"""
     inj = case['inj']
     stage_inj = (inj['stage'], inj['kind']) if inj['type'] == 'forced' else None
-    env = Env(case['inp'], case['outp'], case['world'], user=case['user'], stage_inj=stage_inj, msgpack_keys=msgpack_keys)
+    env = Env(case['inp'], case['outp'], case['world'], user=case['user'], stage_inj=stage_inj, msgpack_keys=msgpack_keys,
+              shape=case.get('shape', 'value'))
     if inj['type'] == 'raw':
         body, http = bytes.fromhex(inj['hex']), None
     else:
         body, http = request(case['inp'], inj.get('variant', 'ok'), msgpack_keys)
     res = env.run_wsgi(body, http) if case['transport'] == 'wsgi' else env.run_serverbase(body)
-    res.update(trace=env.trace, stages=env.stages, user_calls=env.user_calls, user_returns=env.user_returns)
+    res.update(trace=env.trace, stages=env.stages, user_calls=env.user_calls, user_returns=env.user_returns, out_none=env.out_none)
     return res
 
 
@@ -529,18 +546,20 @@ def measure_facts(msgpack_keys):
             esc = True
         f['proc'][name] = (probe_syms(env.trace, n), esc)
 
-    # ServerBase.finalize_context through get_out_string
-    for key, user in (('finOk', 'ok'), ('finErr', 'fault')):
-        env = Env('xml', 'xml', quiet_world(), user=user)
-        n = len(env.trace)
-        try:
-            srv, p = ctx_ready(env)
-            srv.get_out_object(p)
+    # ServerBase.finalize_context through get_out_string: ok / fault  x  out_string set / left None by the protocol
+    f['fin'] = {}
+    for fault in (False, True):
+        for none in (False, True):
+            env = Env('xml', 'xml', quiet_world(), user='fault' if fault else 'ok', no_out_string=none)
             n = len(env.trace)
-            srv.get_out_string(p)
-            f[key] = probe_syms(env.trace, n)
-        except Exception as e:
-            f[key] = probe_syms(env.trace, n) + ['<crash:%s>' % type(e).__name__]
+            try:
+                srv, p = ctx_ready(env)
+                srv.get_out_object(p)
+                n = len(env.trace)
+                srv.get_out_string(p)
+                f['fin'][(fault, none)] = probe_syms(env.trace, n)
+            except Exception as e:
+                f['fin'][(fault, none)] = probe_syms(env.trace, n) + ['<crash:%s>' % type(e).__name__]
 
     # generate_contexts / get_in_object when the in-protocol raises
     for key, stage, fun in (('genCtx', 'createInDoc', 'generate_contexts'), ('getIn', 'deserialize', 'get_in_object')):
@@ -573,21 +592,35 @@ def measure_facts(msgpack_keys):
     j = next((k for k, o in enumerate(tr) if k > i and o[0] == 'outprot'), len(tr))
     f['wsgiSerFail'] = (probe_syms(tr[:j], i + 1), res['escaped'] is not None)
 
-    # after_serialize on the fault path, per output protocol
-    f['afterSerOnFault'] = {}
+    # the output protocols' own events and whether they leave ctx.out_string None, per result shape / for a fault /
+    # before a failing serialize raises
+    f['serOk'], f['serErr'], f['serPartial'], f['leavesNone'], f['leavesNoneFault'] = {}, {}, {}, {}, {}
+    own = lambda tr: [o[2] for o in tr if o[0] == 'outprot']
     for outp in OUT_PROTOS:
         w = quiet_world()
-        w['outprot'] = {'regs': [['after_serialize', 9]]}
+        w['outprot'] = {'regs': [[e, 9] for e in PROT_EVENTS]}
+        for shape in SHAPES:
+            env = Env('xml', outp, w, shape=shape)
+            env.run_wsgi(request('xml', 'ok')[0])
+            failed = any(st[0] == 'serialize' for st in env.stages)
+            f['serOk'][(outp, shape)] = [] if failed else own(env.trace)
+            f['leavesNone'][(outp, shape)] = bool(env.out_none) and env.out_none[0] == (False, True)
         env = Env('xml', outp, w, user='fault')
+        env.run_wsgi(request('xml', 'ok')[0])
+        f['serErr'][outp] = own(env.trace)
+        f['leavesNoneFault'][outp] = bool(env.out_none) and env.out_none[-1] == (True, True)
+        env = Env('xml', outp, w, user='unser')
         env.run_serverbase(request('xml', 'ok')[0])
-        f['afterSerOnFault'][outp] = any(o[0] == 'outprot' for o in env.trace)
+        f['serPartial'][outp] = own(env.trace) if any(st[0] == 'serialize' and st[2] for st in env.stages) else []
     return f
 
 
 GOOD_FACTS = {
     'ctxInit': ['method_context_created'], 'ctxClose': ['method_context_closed'],
-    'finOk': ['method_return_document', 'method_return_string'],
-    'finErr': ['method_exception_document', 'method_exception_string'],
+    'fin': {(False, False): ['method_return_document', 'method_return_string'],
+            (False, True): ['method_return_document', 'method_return_string'],
+            (True, False): ['method_exception_document', 'method_exception_string'],
+            (True, True): ['method_exception_document', 'method_exception_string']},
     'proc': {'ok': (['method_call', 'user', 'method_return_object'], False),
              'callRaise fault': (['method_call', 'method_exception_object'], False),
              'callRaise exc': (['method_call', 'method_exception_object'], False),
@@ -602,11 +635,11 @@ GOOD_FACTS = {
     'wsgiSerFail': (['method_exception_object'], False),
 }
 LEAN_OUTP = {'xml': 'xml', 'soap11': 'soap11', 'soap12': 'soap12', 'json': 'json', 'yaml': 'yaml', 'msgpack': 'msgpack',
-             'msgpackrpc': 'msgpackRpc'}
+             'msgpackrpc': 'msgpackRpc', 'http': 'httpRpc'}
 
 
 def lean_ev(e):
-    return '.' + LEAN_EV.get(e, 'other')
+    return '.' + LEAN_EV.get(e, LEAN_PROT_EV.get(e, 'other'))
 
 
 def lean_sym(s):
@@ -619,8 +652,14 @@ def lean_meas(m):
 
 def facts_lean(f):
     evs = lambda l: '[%s]' % ', '.join(lean_ev(e) for e in l if e != 'user')
+    b = lambda x: 'true' if x else 'false'
     proc = '\n'.join('    | .%s => %s' % (' .'.join(k.split()), lean_meas(v)) for k, v in f['proc'].items())
-    aso = ' '.join('| .%s => %s' % (LEAN_OUTP[k], 'true' if v else 'false') for k, v in f['afterSerOnFault'].items())
+    fin = '\n'.join('    | %s, %s => %s' % (b(k[0]), b(k[1]), evs(v)) for k, v in f['fin'].items())
+    ser_ok = '\n'.join('    | .%s, .%s => %s' % (LEAN_OUTP[o], sh, evs(v)) for (o, sh), v in f['serOk'].items())
+    ser_err = '\n'.join('    | .%s => %s' % (LEAN_OUTP[o], evs(v)) for o, v in f['serErr'].items())
+    ser_part = '\n'.join('    | .%s => %s' % (LEAN_OUTP[o], evs(v)) for o, v in f['serPartial'].items())
+    none_ok = '\n'.join('    | .%s, .%s => %s' % (LEAN_OUTP[o], sh, b(v)) for (o, sh), v in f['leavesNone'].items())
+    none_err = '\n'.join('    | .%s => %s' % (LEAN_OUTP[o], b(v)) for o, v in f['leavesNoneFault'].items())
     return '''-- GENERATED by harness/c14.py (T1) from /repo on every run. Do not edit.
 import SpyneModel.EventsPipeline
 namespace SpyneModel.Generated
@@ -631,8 +670,8 @@ def facts14 : Facts14 where
   ctxClose := %s
   proc := fun pc => match pc with
 %s
-  finOk := %s
-  finErr := %s
+  fin := fun fault none => match fault, none with
+%s
   genCtx := fun k => match k with
     | .fault => %s
     | .exc => %s
@@ -640,13 +679,21 @@ def facts14 : Facts14 where
     | .fault => %s
     | .exc => %s
   wsgiSerFail := %s
-  afterSerOnFault := fun o => match o with
-    %s
+  serOk := fun o sh => match o, sh with
+%s
+  serErr := fun o => match o with
+%s
+  serPartial := fun o => match o with
+%s
+  leavesNone := fun o sh => match o, sh with
+%s
+  leavesNoneFault := fun o => match o with
+%s
 
 end SpyneModel.Generated
-''' % (evs(f['ctxInit']), evs(f['ctxClose']), proc, evs(f['finOk']), evs(f['finErr']),
+''' % (evs(f['ctxInit']), evs(f['ctxClose']), proc, fin,
        lean_meas(f['genCtx']['fault']), lean_meas(f['genCtx']['exc']), lean_meas(f['getIn']['fault']),
-       lean_meas(f['getIn']['exc']), lean_meas(f['wsgiSerFail']), aso)
+       lean_meas(f['getIn']['exc']), lean_meas(f['wsgiSerFail']), ser_ok, ser_err, ser_part, none_ok, none_err)
 
 
 def fact_witness_case(key, sub=None):
@@ -668,8 +715,8 @@ def fact_witness_case(key, sub=None):
         elif what in ('callRaise', 'retRaise'):
             ev = 'method_call' if what == 'callRaise' else 'method_return_object'
             base['world'] = quiet_world(((ev, kind),))
-    elif key == 'finErr':
-        base['user'] = 'fault'
+    elif key == 'fin':
+        base.update(inp='http', outp='http', shape='void', user='fault' if sub[0] else 'ok')
     return base
 
 
@@ -788,7 +835,7 @@ def gen_world(rng, raiser=None, rich=True):
 
 
 def proto_pairs():
-    pairs = [(p, p) for p in OUT_PROTOS] + [('http', 'json'), ('http', 'xml')]
+    pairs = [(p, p) for p in OUT_PROTOS] + [('http', 'json'), ('http', 'xml'), ('json', 'http'), ('soap11', 'http')]
     return pairs
 
 
@@ -798,8 +845,8 @@ def gen_cases(ctx):
     raisers = [None] + [(lvl, ev, k) for lvl in ('app', 'meth', 'base', 'svc') for ev in ('method_call', 'method_return_object')
                         for k in ('fault', 'exc')]
 
-    def add(inp, outp, transport, inj, user, raiser, label):
-        cases.append({'inp': inp, 'outp': outp, 'transport': transport, 'inj': inj, 'user': user,
+    def add(inp, outp, transport, inj, user, raiser, label, shape='value'):
+        cases.append({'inp': inp, 'outp': outp, 'transport': transport, 'inj': inj, 'user': user, 'shape': shape,
                       'world': gen_world(rng, raiser), 'label': label})
 
     for inp, outp in proto_pairs():
@@ -813,6 +860,14 @@ def gen_cases(ctx):
             for user in ('fault', 'exc'):
                 add(inp, outp, transport, ok, user, None, 'user')
                 add(inp, outp, transport, ok, user, rng.choice(raisers[1:]), 'user+listener')
+            # every shape of the result: no declared return / None / a value (above) / a generator
+            for shape in ('void', 'none', 'generator'):
+                for _ in range(4 if outp == 'http' and shape == 'void' else 1):
+                    add(inp, outp, transport, ok, 'ok', None, 'shape', shape)
+                add(inp, outp, transport, ok, 'ok', rng.choice(raisers[1:]), 'shape+listener', shape)
+                add(inp, outp, transport, ok, rng.choice(['fault', 'exc']), None, 'shape+user', shape)
+                add(inp, outp, transport, {'type': 'forced', 'stage': rng.choice(PRE_STAGES + ['dispatch', 'serialize']),
+                                           'kind': rng.choice(['fault', 'exc'])}, 'ok', None, 'shape+forced', shape)
             # real failures of the request
             for variant in ('unknown', 'badarg'):
                 add(inp, outp, transport, {'type': 'real', 'variant': variant}, 'ok', None, variant)
@@ -845,7 +900,7 @@ def gen_cases(ctx):
         else:
             inj = {'type': 'real', 'variant': 'ok'}
         user = rng.choice(['ok', 'ok', 'fault', 'exc'] + (['unser'] if outp in XML_FAMILY else []))
-        add(inp, outp, transport, inj, user, rng.choice(raisers), 'random')
+        add(inp, outp, transport, inj, user, rng.choice(raisers), 'random', rng.choice(SHAPES) if user != 'unser' else 'value')
     return cases
 
 
@@ -942,7 +997,8 @@ def probe_msgpack_keys():
 
 
 def case_query(case, inj):
-    return {'op': 'trace', 'outp': case['outp'], 'transport': case['transport'], 'stage': inj[0], 'kind': inj[1],
+    return {'op': 'trace', 'outp': case['outp'], 'transport': case['transport'], 'shape': case.get('shape', 'value'),
+            'stage': inj[0], 'kind': inj[1],
             'inner': inj[2], 'world': world_json(case['world'])}
 
 
@@ -962,11 +1018,12 @@ def run(ctx):
     bad = []
     for k, good in GOOD_FACTS.items():
         if isinstance(good, dict):
-            bad += [(k, sub) for sub in good if tuple(f[k][sub]) != tuple(good[sub])]
+            bad += [(k, sub) for sub in good if tuple(f[k][sub]) != tuple(good[sub])] if k != 'fin' else \
+                [(k, sub) for sub in good if f[k][sub] != good[sub]]
         elif (tuple(f[k]) if isinstance(good, tuple) else f[k]) != good:
             bad.append((k, None))
     for k, sub in bad:
-        ctx.hit('fact-bad:%s%s' % (k, ':' + sub if sub else ''))
+        ctx.hit('fact-bad:%s%s' % (k, ':' + str(sub) if sub else ''))
         ctx.log('T1: fact %s %s measured %r' % (k, sub or '', f[k][sub] if sub else f[k]))
 
     # ---- proof
@@ -1008,9 +1065,12 @@ def run(ctx):
         impl = {'ok': {'trace': obs['trace'], 'escaped': obs['escaped'] is not None}}
         Q.append((q, impl))
         nontrivial = len(obs['trace']) > 6
-        ctx.case({'inp': case['inp'], 'q': q, 'inj': case['inj'], 'user': case['user']}, nontrivial)
+        ctx.case({'inp': case['inp'], 'q': q, 'inj': case['inj'], 'user': case['user'], 'shape': case.get('shape')}, nontrivial)
         ctx.hit('op:trace'); ctx.hit('inp:' + case['inp']); ctx.hit('outp:' + case['outp']); ctx.hit('transport:' + case['transport'])
         ctx.hit('stage:%s:%s' % (inj[0], inj[1] if inj[0] != 'none' else '-')); ctx.hit('label:' + case['label'])
+        ctx.hit('shape:' + case.get('shape', 'value'))
+        if any(n for _, n in obs['out_none']):
+            ctx.hit('out_string-left-None:%s' % case['outp'])
         if case['world']['raises']:
             ctx.hit('raiser:%s:%s' % (case['world']['raises'][0][1], case['world']['raises'][0][2]))
         ctx.hit('outcome:' + ('escaped' if obs['escaped'] else automaton(probe_syms(obs['trace'])).get('state')))
@@ -1112,7 +1172,7 @@ def replay(ctx, obj):
         keys = probe_msgpack_keys() or 'bytes'
         obs = run_case(case, keys)
         inj = model_inj(case, obs)
-        print('case     :', {k: case[k] for k in ('inp', 'outp', 'transport', 'inj', 'user')})
+        print('case     :', {k: case.get(k) for k in ('inp', 'outp', 'transport', 'shape', 'inj', 'user')})
         print('failure  :', inj)
         print('observer :', probe_syms(obs['trace']))
         print('escaped  :', obs['escaped'], ' status:', obs.get('status'))
